@@ -1,2 +1,114 @@
-(* C13 - placeholder until the theorems land; see facts/AnsiFacts.v *)
-From Servitor Require Import Base Ansi.
+(* C13 - Wrapping, padding, indenting and snipping preserve content and honour the width.
+   Only property theorems here, each closed by [exact <fact>].  A "cell" is what ansi.expand
+   yields: (style prefix, one rune, reset?) - every length in ansi.go counts cells.  The theorems
+   quantify over ALL cell lists (hostile ESC placements included) and all widths >= 1. *)
+From Servitor Require Import Base Unicode Ansi AnsiSpec.
+From Servitor.Facts Require Import AnsiFacts WrapFacts.
+Local Open Scope Z_scope.
+
+(* expand tiles the text: nothing is lost or reordered by cutting it into cells *)
+Theorem expand_tiles : forall t : text, collapse (expand t) = t.
+Proof. exact expand_tiles_fact. Qed.
+Print Assumptions expand_tiles.
+
+(* ... and for well-formed styled text the printed text re-expands to the same cells, so the
+   cell-level statements below are statements about what is printed *)
+Theorem expand_collapse_wf : forall cs : list cell, wf_cells cs -> expand (collapse cs) = cs.
+Proof. exact expand_collapse_wf_fact. Qed.
+Print Assumptions expand_collapse_wf.
+
+(* word-wrapping yields lines of at most w visible characters *)
+Theorem wrap_width : forall (cs : list cell) (w : Z),
+  1 <= w -> Forall (fun l => clen l <= w) (wrap_cells w cs).
+Proof. exact wrap_width_fact. Qed.
+Print Assumptions wrap_width.
+
+(* ... keeps every non-whitespace character with its styling in the original order *)
+Theorem wrap_keeps_nonspace : forall (cs : list cell) (w : Z),
+  1 <= w -> filter nonspace (concat (wrap_cells w cs)) = filter nonspace cs.
+Proof. exact wrap_keeps_nonspace_fact. Qed.
+Print Assumptions wrap_keeps_nonspace.
+
+(* ... never removes a line break that separates two visible characters: everything before a
+   newline cell ends up on earlier lines than everything after it *)
+Theorem wrap_keeps_breaks : forall (w : Z) (a : list cell) (nl : cell) (b : list cell),
+  1 <= w -> is_nl_cell nl = true -> b <> [] ->
+  exists la, la <> [] /\ wrap_cells w (a ++ nl :: b) = la ++ wrap_cells w b /\
+             filter nonspace (concat la) = filter nonspace a.
+Proof. exact wrap_keeps_breaks_fact. Qed.
+Print Assumptions wrap_keeps_breaks.
+
+(* ... and breaks inside a word only if the word is longer than a line *)
+Theorem wrap_word_intact : forall (w : Z) (a word b : list cell),
+  1 <= w -> word <> [] -> forallb nonspace word = true -> clen word <= w ->
+  (a = [] \/ exists a' s, a = a' ++ [s] /\ nonspace s = false) ->
+  (b = [] \/ exists s b', b = s :: b' /\ nonspace s = false) ->
+  exists before l1 l2 after, wrap_cells w (a ++ word ++ b) = before ++ (l1 ++ word ++ l2) :: after.
+Proof. exact wrap_word_intact_fact. Qed.
+Print Assumptions wrap_word_intact.
+
+(* the width >= 1 hypothesis is necessary: at width 0 content IS lost (refutation by computation) *)
+Theorem wrap_keeps_nonspace_refuted_at_width_0 :
+  exists cs, filter nonspace (concat (wrap_cells 0 cs)) <> filter nonspace cs.
+Proof.
+  exists [mkcell [] 65%N false; mkcell [] 32%N false; mkcell [] 66%N false]. vm_compute. discriminate.
+Qed.
+Print Assumptions wrap_keeps_nonspace_refuted_at_width_0.
+
+(* hard wrapping: each line of cells is cut into pieces of exactly w cells (the last one possibly
+   shorter); nothing else changes *)
+Theorem dumb_wrap_shape : forall (w : Z) (cs : list cell), 1 <= w ->
+  dumb_cells w cs 0 =
+  join_with [NL] (map collapse (flat_map (fun l => chunk (Z.to_nat w) (length l) l) (cell_lines cs))).
+Proof. exact dumb_shape_fact. Qed.
+Print Assumptions dumb_wrap_shape.
+
+Theorem chunk_spec : forall (n : nat) (l : list cell), (1 <= n)%nat ->
+  concat (chunk n (length l) l) = l /\
+  Forall (fun x => (length x <= n)%nat) (chunk n (length l) l) /\
+  (forall pre0 lastc, chunk n (length l) l = pre0 ++ [lastc] -> Forall (fun x => length x = n) pre0).
+Proof. exact chunk_spec_fact. Qed.
+Print Assumptions chunk_spec.
+
+(* padding: every line gets exactly max(0, len - |line|) plain spaces at its end *)
+Theorem pad_shape : forall (len : Z) (cs : list cell),
+  pad_cells len cs 0 =
+  join_with [NL] (map (fun l => collapse l ++ spaces (Z.max 0 (len - clen l))) (cell_lines cs)).
+Proof. exact pad_shape_fact. Qed.
+Print Assumptions pad_shape.
+
+(* indenting: the prefix is inserted after every newline and nothing else changes *)
+Theorem indent_shape : forall (prefix : text) (cs : list cell),
+  indent_cells prefix cs = join_with (NL :: prefix) (map collapse (cell_lines cs)).
+Proof. exact indent_shape_fact. Qed.
+Print Assumptions indent_shape.
+
+(* snipping keeps a prefix of the lines minus trailing blank lines, removes at most the last
+   cell of the last kept line, and the ellipsis flag is set iff something was cut *)
+Theorem snip_shape : forall (width : Z) (lines : list text) (ell0 : bool),
+  exists body trailing,
+    lines = body ++ trailing /\
+    forallb (fun l => only_space (expand l)) trailing = true /\
+    (body = [] \/ exists b x, body = b ++ [x] /\ only_space (expand x) = false) /\
+    let ell := ell0 || negb (match trailing with [] => true | _ => false end) in
+    snip_back width (rev lines) [] ell0 =
+      (match rev body with
+       | [] => []
+       | x :: rb => rev rb ++ [collapse (if Z.eqb (clen (expand x)) width && ell
+                                         then removelast (expand x) else expand x)]
+       end, ell).
+Proof. exact snip_back_shape_fact. Qed.
+Print Assumptions snip_shape.
+
+(* ... and returns at most the requested number of lines *)
+Theorem snip_lines : forall (t : text) (width h : Z) (e r : text),
+  1 <= h -> has_nl e = false -> snip t width h e = Ok r ->
+  (length (split_nl r) <= Z.to_nat h)%nat.
+Proof. exact snip_lines_fact. Qed.
+Print Assumptions snip_lines.
+
+(* Non-vacuity: a styled text that is actually wrapped *)
+Example c13_example :
+  map (map letter) (wrap_cells 3 (expand [97;98;32;99;100;101;102;10;103]%N))
+  = [[97;98]; [99;100;101]; [102]; [103]]%N.
+Proof. vm_compute. reflexivity. Qed.
